@@ -57,10 +57,17 @@ PIsLinear(p) == p[4] = QZ /\ p[5] = QZ /\ p[6] = QZ
 SlipInv(D, A, s) == LET g(i) == LET h(j) == QMul(D[i][j], QMul(A[SlipDir[s]][i], A[SlipNrm[s]][j])) IN QSum3(h)
                     IN QSum3(g)
 
-Kernel(fab, A, L) ==
+\* KernelI: the kernel with the slip invariants used for the ACTIVITY ORDER and the slip-rate ratios
+\* given explicitly (Iact).  Kernel(fab, A, L) uses the grain's own invariants.  LimitKernel uses
+\* the first-order coefficients of the invariants along a perturbation A(delta) = (1 + delta W) A0 of
+\* a grain on which NO slip is resolved at delta = 0: for small delta the roles and ratios are
+\* those of J (they are scale-free), the Schmid tensor is that of A0, and
+\*   gamma0 = delta * (4 sum_s beta_s J_s) / R1 + O(delta^2),
+\* because the least-squares numerator reduces to R2 = 2 G : D = 4 sum_s beta_s I_s.
+KernelI(fab, A, L, Iact, limit) ==
   LET D == MEval(MSym(L))
       it == InvTau(fab)
-      I == TLCEval([s \in S4 |-> SlipInv(D, A, s)])
+      I == Iact
       act == TLCEval([s \in S4 |-> QMul(QAbs(I[s]), it[s])])          \* activity |I_s / tau_s|
       \* roles by increasing activity; documented tie-break: none (ties are flagged)
       Rank(s) == Cardinality({t \in S4 : QLt(act[t], act[s]) \/ (act[t] = act[s] /\ t < s)})
@@ -102,10 +109,25 @@ Kernel(fab, A, L) ==
              LET f(rr) == LET g(ss) == QMul(Q(Eps(x[2], rr, ss)), QMul(A[x[1]][ss], w0[rr])) IN QSum3(g) IN QSum3(f)])
       V == TLCEval([x \in I3 \X I3 |->
              LET f(rr) == LET g(ss) == PScale(QMul(Q(Eps(x[2], rr, ss)), A[x[1]][ss]), w1[rr]) IN PSum3(g) IN PSum3(f)])
-  IN [ fab |-> fab, A |-> A, L |-> L, I |-> I, it |-> it,
+      R2lin == TLCEval(LET t(s4) == PScale(QMul(Q(4), I[s4]), beta[s4]) IN PAdd(PAdd(t(1), t(2)), PAdd(t(3), t(4))))
+  IN [ fab |-> fab, A |-> A, L |-> L, I |-> I, it |-> it, limit |-> limit, R2lin |-> R2lin,
        roles |-> <<inac, mn, mid, mx>>, tie |-> tie, unresolved |-> unresolved, dead |-> dead,
        rint |-> IF ol THEN ratio(mid) ELSE QZ, rmin |-> IF ol THEN ratio(mn) ELSE QZ,
        beta |-> beta, R1 |-> R1, R2 |-> R2, U |-> U, V |-> V ]
+
+Invariants(A, L) == LET D == MEval(MSym(L)) IN TLCEval([s \in S4 |-> SlipInv(D, A, s)])
+Kernel(fab, A, L) == KernelI(fab, A, L, Invariants(A, L), FALSE)
+\* first-order coefficients J_s of the slip invariants along A(delta) = (1 + delta W) A0, W skew
+DInvariants(A0, W, L) ==
+    LET D == MEval(MSym(L))
+        dA == MEval(MMul(W, A0))                       \* d/d delta of the rows of A
+        J(s) == LET g(i) == LET h(j) == QMul(D[i][j], QAdd(QMul(dA[SlipDir[s]][i], A0[SlipNrm[s]][j]),
+                                                            QMul(A0[SlipDir[s]][i], dA[SlipNrm[s]][j]))) IN QSum3(h)
+                IN QSum3(g)
+    IN TLCEval([s \in S4 |-> J(s)])
+LimitKernel(fab, A0, W, L) == KernelI(fab, A0, L, DInvariants(A0, W, L), TRUE)
+\* the identity behind R2lin: for every grain the least-squares numerator is R2 = 4 sum_s beta_s I_s
+R2Identity(k) == k.limit \/ k.R2 = k.R2lin
 
 \* ---------------------------------------------------------------- lemmas (per case)
 \* A^T dA is skew for every gamma0 and every beta:  A^T U skew (rationals), A^T V skew (polys)
@@ -124,7 +146,7 @@ R1Closed(k) == LET ol == k.fab \in OlivineFabs
                            THEN <<Q(4), QZ, QZ, IF hasI THEN Q(4) ELSE QZ, QZ, IF hasM THEN Q(4) ELSE QZ>>
                            ELSE IF ~ol /\ k.beta[4] # PZero THEN PConst(Q(4)) ELSE PZero
 RolesArePermutation(k) == {k.roles[i] : i \in 1..4} = S4
-KernelLemmas(k) == /\ IsRotation(k.A) /\ RolesArePermutation(k)
+KernelLemmas(k) == /\ IsRotation(k.A) /\ RolesArePermutation(k) /\ R2Identity(k)
                    /\ SkewU(k.A, k.U) /\ SkewV(k.A, k.V)
                    /\ R1Closed(k) /\ PIsLinear(k.R2)
                    /\ \A x \in I3 \X I3 : PIsLinear(k.V[x])
